@@ -106,12 +106,11 @@ Definition spec_best (name : str) (es : list entry) : option str :=
     | d :: ds => Some (name ++ AT :: max_str d ds ++ DOT_YANG)
     end.
 
-(* the calendar reading of YYYY-MM-DD as the number YYYYMMDD *)
+(* the calendar reading of YYYY-MM-DD: the number YYYYMMDD *)
+Definition digits_val (acc : N) (ds : str) : N := fold_left (fun acc c => (acc * 10 + (c - 48))%N) ds acc.
 Definition date_num (d : str) : N :=
   match d with
-  | [y1; y2; y3; y4; _; m1; m2; _; d1; d2] =>
-      let v c := (c - 48)%N in
-      (((((((v y1 * 10 + v y2) * 10 + v y3) * 10 + v y4) * 10 + v m1) * 10 + v m2) * 10 + v d1) * 10 + v d2)%N
+  | [y1; y2; y3; y4; _; m1; m2; _; d1; d2] => digits_val 0 [y1; y2; y3; y4; m1; m2; d1; d2]
   | _ => 0%N
   end.
 
